@@ -429,6 +429,23 @@ class MsgFamily(Family):
         yield ["msg.from 20 -", "msg.from 20 0200016100000000000000000005", "msg.from 20 02000161", "msg.from 20 020001610000000000000000000",
                "msg.from 20 000000000000000000020001610500", "msg.from 20 0200016102000162050", "msg.from 20 0200016100000000000000000005050505",
                "msg.from 20 09", "msg.from 20 02000161000000000000000000", "msg.from 18 -", "msg.from 18 09", "msg.from 18 0505"]
+        # the aliased type ids on bodies that look like something else: a Number whose first payload byte is itself an
+        # AMF0 marker (so that a reader which peeks for a format byte can be fooled), with and without the AMF3 format byte
+        import gen_amf as GA2
+        for m in list(range(0, 0x12)) + [0x40, 0x7f, 0xc0, 0xff]:
+            tail = rng.bytes(7)
+            rest = rng.choice([b"", GA2.enc(("s", b"hello")), GA2.enc(("z",)), bytes([2, 0, 5]) + b"hello"])
+            bd = (bytes([0, m]) + tail + rest).hex()
+            bump(stats, "alias_marker_lookalikes")
+            yield [f"!msg.alias {bd}", f"msg.from 15 {bd}", f"msg.from 18 {bd}", f"msg.from 17 00{bd}", f"msg.from 17 {bd}", f"msg.from 20 {bd}",
+                   f"!msg.alias {bd[2:]}", f"msg.from 15 {bd[2:]}", f"msg.from 17 {bd[2:]}"]
+        for _ in range(150 if tier == "quick" else 1500):
+            vals = [GA2.gen_val(rng, 0, allow_bad=False) for _ in range(rng.range(1, 4))]
+            if not all(GA2.expressible(v) for v in vals):
+                continue
+            bd = GA2.encs(vals).hex() or "-"
+            bump(stats, "alias_random_bodies")
+            yield [f"!msg.alias {bd}", f"msg.from 15 {bd}", f"msg.from 17 00{bd if bd != '-' else ''}"]
         n = 2500 if tier == "quick" else 30000
         for _ in range(n):
             wf = not rng.chance(1, 6)
